@@ -31,6 +31,8 @@ structure Cfg where
       `WaitForGracefulClose`); `false`: once the closing instance has flushed, a fresh instance is created and mapped
       while the old one's close callback — which removes the map entry by name — is still to come -/
   summonWaitsForUnmap : Bool := true
+  /-- GracefulStop returns (and the process exits) only when no instance is mapped any more -/
+  stopWaitsUntilClosed : Bool := true
   deriving DecidableEq, Repr
 
 structure TSt where
@@ -72,6 +74,8 @@ inductive Act where
   | flushTick
   /-- the late close callback of a replaced instance: removes whatever is mapped under the name -/
   | staleUnmap
+  /-- GracefulStop has returned and the process exits: whatever is only in memory is gone -/
+  | exit
   deriving DecidableEq, Repr
 
 def init (file : List Nat) : St :=
@@ -147,6 +151,8 @@ def step (cfg : Cfg) (s : St) : Act → Option St
     if s.live && !s.closing && s.stage == 0 then some { s with file := s.mem } else none
   | .staleUnmap =>
     if s.live && s.unmapPending then some { s with live := false, unmapPending := false } else none
+  | .exit =>
+    if cfg.stopWaitsUntilClosed && s.live then none else some { s with live := false }
 
 abbrev run (cfg : Cfg) := LTS.run (step cfg)
 
